@@ -63,6 +63,12 @@ def check(model: Model, rep: Report, tier: str):
                    "flux / readout): class -> kind table and kind-books-its-channel agreement (= C10.T4)")
     with rep.isolated():
         r13(model, rep)
+    with rep.isolated():
+        from .c03 import h7 as _h7
+        from ..effects import Effects as _Eff
+        from ..resolve import CallGraph as _CG
+        _cg = _CG(model)
+        _h7(model, rep, _cg, _Eff(model, _cg), rule="C01.R14", keep=lambda f: "/structure/" in f.module.relpath or "/language/" in f.module.relpath)
     from .c03 import h5
     from ..resolve import CallGraph
     with rep.isolated():
@@ -355,6 +361,18 @@ def r4(model: Model, rep: Report):
             continue
         # max(...) idiom
         v = p.value
+        if v is not None and v[0] == "call" and isinstance(v[1], tuple) and v[1][0] == "sub" and v[1][1][0] == "dict" and v[1][2][0] == "attr" and v[1][2][1] == s:
+            # selection function looked up by the link's relation-to-group: the entry that chained copies use (LATEST, the field's default) is what R4 is about
+            entry = [fn for k_, fn in v[1][1][1] if k_[0] == "enum" and k_[2] == "LATEST"]
+            if len(entry) == 1:
+                fn = entry[0]
+                name = fn if isinstance(fn, str) else fn[1] if isinstance(fn, tuple) and fn[0] in ("global", "builtin") else None
+                if name in ("max", "min"):
+                    v = ("call", name) + tuple(v[2:])
+                    if name == "min":
+                        rep.fail("C01.R4", construct, f.loc, found=show(p.value)[:160], required="max(group, key=end_time) for LATEST", what="the LATEST member of a group is selected with min", detail="direction")
+                        recognised = True
+                        continue
         if v is not None and v[0] == "call" and v[1] == "max" and v[2] and strip_identity_wrappers(v[2][0]) == coll:
             ok = key_selects(model, dict(v[3]).get("key"), "end_time")
             rep.check(ok, "C01.R4", construct, f.loc, found=show(v), required="max(group, key=end_time)", what="not the latest-ending member", detail="direction")
